@@ -107,9 +107,9 @@ package web
 //@   requires start: freshResponse()
 //@   assigns *
 //@   ensures[C10] identity: #nextCalled ==> reqHasId(#nextReq) && mapHas(reqId(#nextReq).attributes, "remoteAddr") && typeIs(reqId(#nextReq).attributes["remoteAddr"], string) && mapHas(reqId(#nextReq).attributes, "clientIp") && typeIs(reqId(#nextReq).attributes["clientIp"], string)
-//@   ensures[C04] clientAddress: #nextCalled && r.Header.Get("X-Forwarded-For") == "" ==> reqId(#nextReq).attributes["clientIp"] == box(nth(0, net.SplitHostPort(r.RemoteAddr)))
+//@   ensures[C04,C12] clientAddress: #nextCalled && r.Header.Get("X-Forwarded-For") == "" ==> reqId(#nextReq).attributes["clientIp"] == box(nth(0, net.SplitHostPort(r.RemoteAddr)))
 //@   loop 0 invariant[C04] first: len(ips) >= 1 && ips[0] == ite(rangeindex >= 0, strings.TrimSpace(nth(0, strings.Cut(h, ","))), nth(0, strings.Cut(h, ",")))
-//@   ensures[C04] forwardedFor: #nextCalled && r.Header.Get("X-Forwarded-For") != "" ==> reqId(#nextReq).attributes["clientIp"] == box(strings.TrimSpace(nth(0, strings.Cut(r.Header.Get("X-Forwarded-For"), ","))))
+//@   ensures[C04,C12] forwardedFor: #nextCalled && r.Header.Get("X-Forwarded-For") != "" ==> reqId(#nextReq).attributes["clientIp"] == box(strings.TrimSpace(nth(0, strings.Cut(r.Header.Get("X-Forwarded-For"), ","))))
 //@   ensures[C04] remoteAddress: #nextCalled ==> reqId(#nextReq).attributes["remoteAddr"] == box(r.RemoteAddr)
 //@   nopanic[C10]
 
